@@ -599,11 +599,27 @@ def monHs (isServer : Bool) (lines : Array String) (cbSpec : String) (statusLine
   let mut lastPartial := false      -- ... are a proper prefix of a head (the parser says: need more)
   let mut readAfterHead := false
   let mut continuedAfterBlock := false
+  let mut gPackets := 0
+  let mut gBytes := 0
+  let mut guardTripped := false
+  let mut readsAfterTrip := 0
+  let mut attackReported := false
+  let mut attackWhileQuiet := false
   let mut failedOnPartial : Option String := none
   for l in lines do
     match words l with
     | "io" :: evs =>
       if headComplete && !finishing && !hsDone && evs.any (fun t => t.startsWith "r:") then readAfterHead := true
+      -- C17: the attack guard, recomputed from the sizes of the reads of the reading stage
+      if !hsDone then
+        for t in evs do
+          if t.startsWith "r:" && t != "r:b" && t != "r:e" && !t.startsWith "r:x" && t != "r:z" then
+            let n := ((t.drop 2).toString.length) / 2
+            if n > 0 then
+              if guardTripped then readsAfterTrip := readsAfterTrip + 1
+              gPackets := gPackets + 1
+              gBytes := gBytes + n
+              if gBytes > 65536 || gPackets > 512 || (gPackets > 64 && gPackets * 128 > gBytes) then guardTripped := true
       -- a transport call that would block ends the handshake call: nothing follows it
       if !hsDone then
         let blockedAt := evs.findIdx? fun t => t == "r:b" || t == "f:b" || t.startsWith "w:b"
@@ -624,6 +640,9 @@ def monHs (isServer : Bool) (lines : Array String) (cbSpec : String) (statusLine
       if finishing then hsDone := true
     | "res" :: "hs" :: "ok" :: _ => hsOk := true; finishing := true
     | "res" :: "hs" :: "err" :: e =>
+      if e.head? == some "AttackAttempt" && !finishing then
+        attackReported := true
+        if !guardTripped then attackWhileQuiet := true
       let e0 := e.head?.getD ""
       if !finishing && lastPartial && !(e0.startsWith "Io." || e0 == "Protocol.HandshakeIncomplete" || e0 == "AttackAttempt") then
         failedOnPartial := some e0
@@ -642,7 +661,9 @@ def monHs (isServer : Bool) (lines : Array String) (cbSpec : String) (statusLine
   if continuedAfterBlock then
     out := out ++ ["mon C17 FAIL continued-after-wouldblock", "mon C07 FAIL handshake-continued-after-wouldblock"]
   -- C17: the guard bounds what a reading stage consumes
-  if reads > 513 || lastLen > 65536 + 4096 then out := out ++ ["mon C17 FAIL guard-bound-exceeded"]
+  if readsAfterTrip > 0 then out := out ++ ["mon C17 FAIL attack-guard-did-not-stop-the-reading"]
+  else if attackWhileQuiet then out := out ++ ["mon C17 FAIL attack-reported-although-within-bounds"]
+  else if reads > 513 || lastLen > 65536 + 4096 then out := out ++ ["mon C17 FAIL guard-bound-exceeded"]
   else out := out ++ ["mon C17 ok"]
   let status101 : Bytes := "HTTP/1.1 101".toUTF8.toList
   if isServer then
